@@ -125,7 +125,9 @@ fn check_windows(run: &mut Run, t: &Text, kind: Kind, max: usize, ctx: usize) {
         Kind::Byte => WindowConfig::Bytes(max, ctx, t.g),
         Kind::Full => WindowConfig::Full(t.g),
     };
-    let possible = kind == Kind::Full || max > 2 * ctx;
+    // (the configuration arithmetic of the reference is done in u128: max and context may be huge)
+    let (maxw, ctx2) = (max as u128, 2 * ctx as u128);
+    let possible = kind == Kind::Full || maxw > ctx2;
     run.calls += 1;
     let r = catch(|| {
         windows(s, &cfg)
@@ -144,12 +146,12 @@ fn check_windows(run: &mut Run, t: &Text, kind: Kind, max: usize, ctx: usize) {
                 run.count(&format!("windows:{k}:err-impossible-config"));
             } else if kind != Kind::Byte {
                 run.violation("possible-config-yields-windows", "", case(), format!("{k} windows with a possible configuration returned an error: {e}"));
-            } else if t.widest + 2 * ctx <= max {
+            } else if t.widest as u128 + ctx2 <= maxw {
                 run.violation(
                     "error-only-if-a-character-cannot-fit",
                     "",
                     case(),
-                    format!("byte windows returned an error although the widest character has {} bytes and even a window with two full contexts has max - 2*context = {} bytes: {e}", t.widest, max - 2 * ctx),
+                    format!("byte windows returned an error although the widest character has {} bytes and even a window with two full contexts has max - 2*context = {} bytes: {e}", t.widest, maxw - ctx2),
                 );
             } else {
                 run.nontrivial += 1;
@@ -162,13 +164,13 @@ fn check_windows(run: &mut Run, t: &Text, kind: Kind, max: usize, ctx: usize) {
     run.compared += 1;
     run.outcome(&ws);
     if !possible {
-        run.violation("impossible-config-yields-error", "", case(), format!("max = {max} <= 2 * context = {} but {} windows were returned", 2 * ctx, ws.len()));
+        run.violation("impossible-config-yields-error", "", case(), format!("max = {max} <= 2 * context = {} but {} windows were returned", ctx2, ws.len()));
         return;
     }
     if kind == Kind::Byte && t.widest > max {
         run.violation("character-wider-than-max-yields-error", "", case(), format!("a character has {} bytes, max is {max}, but {} windows were returned", t.widest, ws.len()));
     }
-    if kind == Kind::Byte && t.widest + 2 * ctx > max {
+    if kind == Kind::Byte && t.widest as u128 + ctx2 > maxw {
         run.count("windows:byte:ok-tolerated-zone");
     } else {
         run.count(&format!("windows:{k}:ok"));
@@ -396,6 +398,16 @@ fn main() {
         for g in [false, true] {
             let t = Text::new(s, g);
             check_windows(&mut run, &t, Kind::Full, 0, 0);
+            // the extremes of the configuration space: "no limit" spelled as the largest values, with
+            // no context, a small one, and contexts of the same order (impossible configurations)
+            for max in [usize::MAX, usize::MAX - 1, 1 << 63] {
+                check_substrings(&mut run, &t, Kind::Char, max);
+                check_substrings(&mut run, &t, Kind::Byte, max);
+                for ctx in [0, 1, usize::MAX / 2, usize::MAX / 2 + 1, usize::MAX] {
+                    check_windows(&mut run, &t, Kind::Char, max, ctx);
+                    check_windows(&mut run, &t, Kind::Byte, max, ctx);
+                }
+            }
             for max in MAXES {
                 check_substrings(&mut run, &t, Kind::Char, max);
                 check_substrings(&mut run, &t, Kind::Byte, max);
